@@ -1,6 +1,7 @@
 package callsim
 
 import (
+	"math"
 	"fmt"
 	"hash/fnv"
 	"os"
@@ -171,6 +172,7 @@ func rows(v *val.V, a, b int) *val.V {
 func buildSession(r *rng.R, rm recModel, mi int, seq, batch int, cuts []int) (whole map[string]*val.V, pieces []Call) {
 	X := corpus.RandF32(r, []int{seq, batch, rm.cfg.Input}, -1, 1)
 	h0 := corpus.RandF32(r, []int{1, batch, rm.cfg.Hidden}, -1, 1)
+	structure(r, X, h0)
 	whole = map[string]*val.V{rm.xName: X, rm.hName: h0}
 	var c0 *val.V
 	if rm.cName != "" {
@@ -193,6 +195,101 @@ func buildSession(r *rng.R, rm recModel, mi int, seq, batch int, cuts []int) (wh
 		pieces = append(pieces, call)
 	}
 	return whole, pieces
+}
+
+// structure gives a third of the sessions input DATA with structure a real caller's data has and random numbers
+// never have: batch rows that agree (replicated beams, a shared start-of-sequence frame), one-hot and scaled one-hot
+// rows, repeated or periodic frames, silent rows, equal initial states. A fast path chosen once per call from a look at
+// the data sees a different picture in the whole sequence and in a piece.
+func structure(r *rng.R, X, h0 *val.V) {
+	if !r.Chance(1, 3) {
+		return
+	}
+	seq, batch, in := X.Shape[0], X.Shape[1], X.Shape[2]
+	at := func(t, b, i int) *uint64 { return &X.Bits[(t*batch+b)*in+i] }
+	copyRow := func(t, b, t2, b2 int) {
+		for i := 0; i < in; i++ {
+			*at(t, b, i) = *at(t2, b2, i)
+		}
+	}
+	one := uint64(math.Float32bits(1))
+	for n := r.Range(1, 2); n > 0; n-- {
+		switch r.Intn(10) {
+		case 0: // every batch row starts with the same frame
+			for b := 1; b < batch; b++ {
+				copyRow(0, b, 0, 0)
+			}
+		case 1: // the batch is one sample replicated, for the first k frames or throughout
+			k := seq
+			if r.Bool() {
+				k = r.Range(1, seq)
+			}
+			for t := 0; t < k; t++ {
+				for b := 1; b < batch; b++ {
+					copyRow(t, b, t, 0)
+				}
+			}
+		case 2, 3: // one-hot rows (exactly 1.0), in all frames or in all but one
+			skip := -1
+			if r.Bool() {
+				skip = r.Intn(seq)
+			}
+			scaled := r.Chance(1, 2)
+			for t := 0; t < seq; t++ {
+				if t == skip {
+					continue
+				}
+				for b := 0; b < batch; b++ {
+					k := r.Intn(in)
+					for i := 0; i < in; i++ {
+						if i != k {
+							*at(t, b, i) = 0
+						} else if !scaled || r.Chance(1, 2) {
+							*at(t, b, i) = one
+						}
+					}
+				}
+			}
+		case 4: // a stretch of repeated frames
+			a := r.Intn(seq)
+			for t := a + 1; t < seq && t < a+r.Range(2, 4); t++ {
+				for b := 0; b < batch; b++ {
+					copyRow(t, b, a, b)
+				}
+			}
+		case 5: // period 2
+			for t := 2; t < seq; t++ {
+				for b := 0; b < batch; b++ {
+					copyRow(t, b, t-2, b)
+				}
+			}
+		case 6: // one batch row silent
+			b := r.Intn(batch)
+			for t := 0; t < seq; t++ {
+				for i := 0; i < in; i++ {
+					*at(t, b, i) = 0
+				}
+			}
+		case 7: // two batch rows equal throughout
+			if batch >= 2 {
+				b1, b2 := r.Intn(batch), r.Intn(batch)
+				for t := 0; t < seq; t++ {
+					copyRow(t, b1, t, b2)
+				}
+			}
+		case 8: // equal initial states for all rows
+			hid := h0.Shape[2]
+			for b := 1; b < batch; b++ {
+				copy(h0.Bits[b*hid:(b+1)*hid], h0.Bits[:hid])
+			}
+		case 9: // the sequence read backwards equals itself
+			for t := 0; t < seq/2; t++ {
+				for b := 0; b < batch; b++ {
+					copyRow(seq-1-t, b, t, b)
+				}
+			}
+		}
+	}
 }
 
 func drawCuts(r *rng.R, seq int) []int {
